@@ -240,6 +240,23 @@ func runLoginHistory(r *vh.Runner, c *vh.Case, rng *vh.Rand, sample bool) {
 	for k := rng.Pick(0, 1, 2, 3); k > 0; k-- {
 		addGrant()
 	}
+	if rng.Chance(0.3) {
+		// one key holds several grants for one user, some of which have run
+		// out: admission does not depend on the clock (C07's subject), and
+		// what one key holds is nobody else's
+		g := grant{User: []string{"alice", "bob"}[rng.Intn(2)], Key: rng.Intn(len(ids)), Type: byte(authgrants.Command), Cmd: cmdPool[rng.Intn(len(cmdPool))], Via: "func"}
+		for k := 2 + rng.Intn(3); k > 0; k-- {
+			g.Start, g.Exp = -time.Hour, time.Hour
+			if k%2 == 0 {
+				g.Start, g.Exp = -3*time.Hour, -2*time.Hour
+			}
+			in := g.intent(ids)
+			if err := x.hs.AddAuthGrant(&in); err == nil && enableAG {
+				led[lk(g.User, g.Key)] = append(led[lk(g.User, g.Key)], g)
+			}
+			trace = append(trace, fmt.Sprintf("grant user=%s key=K%d type=%d window=[%s,%s]", g.User, g.Key, g.Type, g.Start, g.Exp))
+		}
+	}
 	nAtt := 3 + rng.Intn(5)
 	for a := 0; a < nAtt && !c.Violated(); a++ {
 		at := attempt{Key: rng.Intn(len(ids)), User: []string{"alice", "alice", "bob", "bob", "carol", "mallory", ""}[rng.Intn(7)]}
@@ -456,6 +473,15 @@ func directedC07() []directedCase {
 		{"forward-of-the-other-kind", []grant{lpf}, []step{{Op: "pf-remote", Unix: true}}},
 		{"issue-further-grant", []grant{cmdGrant("true", -h, h)}, []step{{Op: "issue"}, {Op: "exec", Cmd: "true"}}},
 		{"two-at-once-one-grant", []grant{cmdGrant("true", -h, h)}, []step{{Op: "double", Cmd: "true"}}},
+		{"two-forwards-at-once-one-grant", []grant{rpf}, []step{{Op: "double-pf"}, {Op: "pf-remote", Unix: true}}},
+		{"two-forwards-at-once-two-grants", []grant{rpf, rpf}, []step{{Op: "double-pf"}, {Op: "pf-remote", Unix: true}}},
+		{"two-forwards-and-a-command-at-once", []grant{rpf, cmdGrant("true", -h, h)}, []step{{Op: "double-pf", Cmd: "true"}, {Op: "exec", Cmd: "true"}}},
+		{"grant-that-starts-in-800ms", []grant{cmdGrant("true", 800*time.Millisecond, h), {User: "alice", Key: 0, Type: byte(authgrants.Shell), Start: 999 * time.Millisecond, Exp: h, Via: "func"},
+			{User: "alice", Key: 0, Type: byte(authgrants.LocalPF), Start: 500 * time.Millisecond, Exp: h, Via: "func"}},
+			[]step{{Op: "exec", Cmd: "true"}, {Op: "pf-local", Unix: true}, {Op: "exec", Cmd: "", Pty: true}}},
+		{"grant-that-ran-out-200ms-ago", []grant{cmdGrant("true", -h, -200*time.Millisecond)}, []step{{Op: "exec", Cmd: "true"}}},
+		{"live-grants-behind-one-that-ran-out", []grant{cmdGrant("date", -3*h, -2*h), cmdGrant("true", -h, h), cmdGrant("echo hi", -h, h), cmdGrant("id", -h, h)},
+			[]step{{Op: "exec", Cmd: "echo hi"}, {Op: "exec", Cmd: "echo hi"}, {Op: "exec", Cmd: "id"}, {Op: "exec", Cmd: "id"}, {Op: "exec", Cmd: "true"}, {Op: "exec", Cmd: "true"}}},
 		{"two-at-once-two-grants", []grant{cmdGrant("true", -h, h), cmdGrant("true", -h, h)}, []step{{Op: "double", Cmd: "true"}, {Op: "exec", Cmd: "true"}}},
 		{"forward-before-start", []grant{{User: "alice", Key: 0, Type: byte(authgrants.LocalPF), Start: h, Exp: 2 * h, Via: "func"}, {User: "alice", Key: 0, Type: byte(authgrants.RemotePF), Start: h, Exp: 2 * h, Via: "func"}},
 			[]step{{Op: "pf-local", Unix: true}, {Op: "pf-remote", Unix: true}, {Op: "clock", Dur: 90 * time.Minute}, {Op: "pf-local", Unix: true}, {Op: "pf-remote", Unix: true}}},
@@ -664,6 +690,38 @@ func runGrantHistory(r *vh.Runner, c *vh.Case, rng *vh.Rand, gs []grant, steps [
 			nstart := max(nconf, len(started.since(n0)))
 			tr("#%d two concurrent exec cmd=%q -> %v (process starts recorded: %d)", si, st.Cmd, res, len(started.since(n0)))
 			for k := 0; k < nstart; k++ {
+				if !judge(action{"exec", st.Cmd, false, now()}) {
+					return
+				}
+			}
+			r.Count("concurrent_request_pairs", 1)
+		case "double-pf":
+			// two remote forwards (and an execution request) asked for at the same moment
+			var wg sync.WaitGroup
+			res := make([]string, 2)
+			n0 := started.n()
+			for k := 0; k < 2; k++ {
+				wg.Add(1)
+				go func() {
+					defer wg.Done()
+					res[k] = cl.pfControl(portforwarding.PfRemote, unixAddr(fmt.Sprintf("%s/r%d.sock", scratch, probeSeq.Add(1))))
+				}()
+			}
+			execAns := ""
+			if st.Cmd != "" {
+				wg.Add(1)
+				go func() { defer wg.Done(); execAns, _ = cl.exec(st.Cmd, false) }()
+			}
+			wg.Wait()
+			tr("#%d two concurrent remote forwards -> %v; exec %q -> %q", si, res, st.Cmd, execAns)
+			for _, a := range res {
+				if a == "success" {
+					if !judge(action{"pf-remote", "", false, now()}) {
+						return
+					}
+				}
+			}
+			if st.Cmd != "" && (execAns == "conf" || len(started.since(n0)) > 0) {
 				if !judge(action{"exec", st.Cmd, false, now()}) {
 					return
 				}
